@@ -334,4 +334,22 @@ theorem inline_segments_inside_block_lines : type_of% @GM.Props.C05E2E.inline_se
     round 2: PROVED for every source): FencedCodeBlock.Info and HTMLBlock.ClosureLine lie inside the source -/
 theorem info_closure_in_range : type_of% @GM.Props.C05E2E.info_closure_in_range := @GM.Props.C05E2E.info_closure_in_range
 
+/-- (re-export of `GM.Props.Wf0.lines_in_range_and_ordered`) **C05(c) with the order clause, every source** (`GM.Props.Blocks.LinesInRange src` is a theorem): when the block
+    phase returns, the line segments of EVERY node of the store lie inside the source (0 ≤ start ≤ stop ≤ len,
+    padding ≥ 0) and increase (each starts at or behind the previous stop). -/
+theorem lines_in_range_and_ordered : type_of% @GM.Props.Wf0.lines_in_range_and_ordered := @GM.Props.Wf0.lines_in_range_and_ordered
+
+/-- (re-export of `GM.Props.Wf0.raw_lines_ordered`) **C05(c), order clause for the three raw kinds, every source.** The line segments of every CodeBlock,
+    FencedCodeBlock and HTMLBlock of the final store increase: each line is appended on its own source line, at or
+    behind the line start — `preserveLeadingTabInCodeBlock`, which moves a segment start one byte back onto a tab, never
+    leaves the line, because a virtual padding only exists behind a tab of the current line (`PadL`). -/
+theorem raw_block_lines_ordered : type_of% @GM.Props.Wf0.raw_lines_ordered := @GM.Props.Wf0.raw_lines_ordered
+
+/-- (re-export of `GM.Props.Wf0.all_lines_ordered`) the same, spelled out per node -/
+theorem all_block_lines_ordered : type_of% @GM.Props.Wf0.all_lines_ordered := @GM.Props.Wf0.all_lines_ordered
+
+/-- (re-export of `GM.Props.Wf0.container_nodes_no_lines`) **containers carry no lines, every source**: in the final store, Document, Blockquote, List, ListItem and
+    ThematicBreak nodes have an empty line list (`Lines().Len() == 0`): no block parser ever appends to them. -/
+theorem container_nodes_no_lines : type_of% @GM.Props.Wf0.container_nodes_no_lines := @GM.Props.Wf0.container_nodes_no_lines
+
 end GM.Props.C05
